@@ -427,10 +427,10 @@ func returnsErrorOnNArg(p *Prog, fn *ssa.Function) bool {
 	c := newNilCtx(p)
 	allInstrs(fn, func(in ssa.Instruction) {
 		r, isRet := in.(*ssa.Return)
-		if !isRet || len(r.Results) == 0 {
+		if !isRet || len(rr(r)) == 0 {
 			return
 		}
-		if !c.nonNil(r.Results[len(r.Results)-1], r, 0) {
+		if !c.nonNil(rr(r)[len(rr(r))-1], r, 0) {
 			return
 		}
 		for _, g := range guardsOf(r.Block()) {
@@ -624,10 +624,10 @@ func ruleEFF4(w *World) []Ob {
 			var bad []string
 			allInstrs(fn, func(in ssa.Instruction) {
 				r, ok := in.(*ssa.Return)
-				if !ok || len(r.Results) == 0 {
+				if !ok || len(rr(r)) == 0 {
 					return
 				}
-				ev := r.Results[len(r.Results)-1]
+				ev := rr(r)[len(rr(r))-1]
 				if !isErrorType(ev.Type()) {
 					return
 				}
@@ -663,7 +663,7 @@ func ruleEFF4(w *World) []Ob {
 		slashOK, validOK := false, false
 		allInstrs(vp, func(in ssa.Instruction) {
 			r, ok := in.(*ssa.Return)
-			if !ok || !nc.nonNil(r.Results[0], r, 0) {
+			if !ok || !nc.nonNil(rr(r)[0], r, 0) {
 				return
 			}
 			for _, g := range guardsOf(r.Block()) {
@@ -808,7 +808,7 @@ func fieldEstablished(p *Prog, cfg ssa.Value, at ssa.Instruction, field string, 
 			return
 		}
 		n++
-		obj := r.Results[0]
+		obj := rr(r)[0]
 		good := false
 		allInstrs(ctor, func(in2 ssa.Instruction) {
 			st, ok := in2.(*ssa.Store)
@@ -1204,7 +1204,7 @@ func ruleEFF6(w *World) []Ob {
 				for _, in2 := range b.Instrs {
 					switch x := in2.(type) {
 					case *ssa.Return:
-						if len(x.Results) > 0 && nc.nonNil(x.Results[len(x.Results)-1], x, 0) {
+						if len(rr(x)) > 0 && nc.nonNil(rr(x)[len(rr(x))-1], x, 0) {
 							sentinel = true
 						}
 					case *ssa.Send:
@@ -1322,10 +1322,10 @@ func statsEveryElement(p *Prog, fn *ssa.Function, nc *nilCtx) string {
 	bad := ""
 	allInstrs(fn, func(in ssa.Instruction) {
 		r, ok := in.(*ssa.Return)
-		if !ok || len(r.Results) != 1 {
+		if !ok || len(rr(r)) != 1 {
 			return
 		}
-		b, isConst := constBool(r.Results[0])
+		b, isConst := constBool(rr(r)[0])
 		if !isConst {
 			bad = "result is not a constant"
 			return
